@@ -112,22 +112,23 @@ Qed.
 
 
 Lemma item_proj_key it : plain_field (item_client it) = true -> sel_key (item_proj it) = item_key it.
-Proof. destruct it as [s|a n args sh T sub]; [|reflexivity]. reflexivity. Qed.
+Proof. destruct it; reflexivity. Qed.
 Lemma item_client_key it : sel_key (item_client it) = item_key it.
 Proof. destruct it; reflexivity. Qed.
 
 Section ItemShape.
   Variables (sc : schema) (subs : list schema) (vdsM : list vardef) (supM : list (bytes * json)) (kq : nat).
-  Variables (decls : list (name * list name)) (rdecls : list rdecl).
-  Notation item_static' := (item_static_b sc subs [] vdsM supM kq decls rdecls).
+  Variables (ab : bool) (decls : list (name * list name)) (rdecls : list rdecl).
+  Notation item_static' := (item_static_b sc subs [] vdsM supM kq ab decls rdecls).
 
   Lemma item_static_plain k T it :
     item_static' k T it = true ->
     (exists a n args ss, item_proj it = SField a n args [] ss) /\ (exists a n args ss, item_client it = SField a n args [] ss).
   Proof.
-    destruct k as [|k]; [discriminate|]. cbn [item_static_b]. destruct it as [s|a n args sh T' sub].
+    destruct k as [|k]; [discriminate|]. cbn [item_static_b]. destruct it as [s|a n args sh T' sub|a n args sh T' csel rsel alts].
     - intros H. apply andb_true_iff in H. destruct H as [H _]. destruct s as [a n args [|? ?] ss| |]; try discriminate.
       cbn [item_proj item_client]. split; repeat eexists.
+    - intros _. cbn [item_proj item_client]. split; repeat eexists.
     - intros _. cbn [item_proj item_client]. split; repeat eexists.
   Qed.
 
@@ -167,9 +168,9 @@ Proof. unfold keys_from. destruct (filter _ fetches); [reflexivity|apply key_sel
 
 Section Nospread.
   Variables (sc : schema) (subs : list schema) (vdsM : list vardef) (supM : list (bytes * json)) (kq : nat).
-  Variables (decls : list (name * list name)) (rdecls : list rdecl).
-  Notation pt_static' := (pt_static_b sc subs [] vdsM supM kq decls rdecls).
-  Notation item_static' := (item_static_b sc subs [] vdsM supM kq decls rdecls).
+  Variables (ab : bool) (decls : list (name * list name)) (rdecls : list rdecl).
+  Notation pt_static' := (pt_static_b sc subs [] vdsM supM kq ab decls rdecls).
+  Notation item_static' := (item_static_b sc subs [] vdsM supM kq ab decls rdecls).
 
   Lemma static_nospread : forall k,
       (forall T pt, pt_static' k T pt = true ->
@@ -184,10 +185,14 @@ Section Nospread.
         apply (IHi T (snd ti) (HI ti (proj1 Hin))).
       + apply forallb_forall. intros s Hs. apply in_map_iff in Hs. destruct Hs as (ti & <- & Hin).
         apply (IHi T (snd ti) (HI ti Hin)).
-    - intros T [s|a n args sh T' sub] H; cbn [item_static_b] in H.
+    - intros T [s|a n args sh T' sub|a n args sh T' csel rsel alts] H; cbn [item_static_b] in H.
       + apply andb_true_iff in H. destruct H as [_ H]. cbn [item_proj item_client]. split; exact H.
       + apply andb_true_iff in H. destruct H as [_ HS].
         destruct sub as [items fetches]. destruct (IHp T' _ HS 0%nat) as [H1 H2]. cbn [pt_items pt_fetches] in H1.
         cbn [item_proj item_client]. rewrite !nospread_field. rewrite pt_proj_eq. split; assumption.
+      + apply andb_true_iff in H. destruct H as [H _].
+        apply andb_true_iff in H. destruct H as [H Hr].
+        apply andb_true_iff in H. destruct H as [_ Hc].
+        cbn [item_proj item_client]. rewrite !nospread_field. split; assumption.
   Qed.
 End Nospread.
